@@ -21,7 +21,7 @@ NOPS = {"add": 2, "sub": 2, "mul": 2, "div": 2, "neg": 1, "inv": 1, "not": 1, "a
         "u32assert2": 2, "u32assert": 1, "u32overflowing_add": 2, "u32wrapping_add": 2, "u32overflowing_add3": 3,
         "u32overflowing_mul": 2, "u32wrapping_mul": 2, "u32overflowing_madd": 3, "u32divmod": 2, "u32div": 2,
         "u32mod": 2, "u32and": 2, "u32xor": 2}
-IMM_FAMS = ["push", "add", "sub", "mul", "div", "eq"]
+IMM_FAMS = ["push", "add", "sub", "mul", "div", "eq", "exp"]
 
 
 def stacks_for(r, name, per):
@@ -81,8 +81,8 @@ def norm_spec(o):
 def run(rep, tier, rng):
     per = 12 if tier == "quick" else 120
     n_ops = 1500 if tier == "quick" else 60000
-    pr = base.proof_and_report(rep, "C05")
     common.prepare()
+    pr = base.proof_and_report(rep, "C05")
     r = rng.fork("c05")
     found = False
     dist = collections.Counter()
@@ -109,6 +109,8 @@ def run(rep, tier, rng):
             meta.append(name)
     for fam in IMM_FAMS:
         vals = BOUND + [2, 3, P - 2] + [r.below(P) for _ in range(per // 2)]
+        if fam == "exp":
+            vals += [4, 7, 8, 9, 15, 16, 2**20, 2**40 + 1, 2**63, 2**63 + 5]
         for v in vals:
             for st in stacks_for(r, fam, 2):
                 padded = st + [0] * (16 - len(st))
